@@ -103,11 +103,15 @@ CleanerStart(c) ==
     /\ UNCHANGED <<gst, gdeadphase, mq, touched, bad>>
 
 \* any result may be returned; left = which files are still linked ("---" = none), as seen by the controller
-CleanerResult(c, r, left, pos) ==
+\* lockop = the call by which the owner lock was taken ("lock" = F_SETLK, "lockw" = F_SETLKW), linked = the
+\* owner_lock file still had a name at that moment: the known race is "non-blocking lock on the unlinked file"
+CleanerResult(c, r, left, lockop, pos) ==
     /\ cl[c].st = "trying"
     /\ LET others == {o \in Cleaners \ {c} : cl[o].st \in {"owner", "dropping", "done"}}
+           how == IF lockop # "lock" THEN "second_owner_blocking_lock"
+                  ELSE IF left \in {"cso", "-so", "c-o", "--o"} THEN "second_owner_owner_lock_linked" ELSE "second_owner"
            b1 == IF r = "Ok" /\ gst # "dead" THEN {<<"reclaim", Phase>>} ELSE {}
-           b2 == IF r = "Ok" /\ others # {} THEN {<<"exclusive", "second_owner">>} ELSE {}
+           b2 == IF r = "Ok" /\ others # {} THEN {<<"exclusive", how>>} ELSE {}
            b3 == IF cl[c].alone /\ cl[c].epoch = epoch /\ ~(r = "Ok" \/ (r = "DoesNotExist" /\ left = "---"))
                  THEN {<<"unrecoverable", r, left>>} ELSE {}
            b4 == IF cl[c].quiet /\ r \notin {"Ok", "OwnedByAnother", "BeingCleanedUp", "DoesNotExist"}
